@@ -34,6 +34,13 @@ func runC02(c *core.Ctx) {
 	ruleStringEncryptionUnconditional(c, "C02-R6")
 	ruleWriteMethodsPure(c, "C02-R7", 9)
 	ruleXRefWidthAgreement(c)
+	// what the writer puts on disk is what the reader parses: the structural rules of C03 are
+	// necessary conditions of the round trip as well (a wrong /Length or a malformed xref entry is
+	// masked by the reader's recovery paths, which trim or lose data)
+	ruleEmissionLiterals(c, "C02-R9")
+	ruleOffsetCapture(c, "C02-R10")
+	ruleXRefStreamRows(c, "C02-R11")
+	ruleObjStmHeader(c, "C02-R12")
 }
 
 func ruleXRefCompleteness(c *core.Ctx) {
